@@ -57,6 +57,20 @@ theorem version_key_order :
 theorem operator_variants_known : Generated.operatorVariants.all (fun v => (mopOf v).isSome) = true ∧
     Generated.operatorVariants.length = 11 := by decide
 
+/-- the variables of the diagram: `Variable` derives `Ord`, so its declaration order (and, inside the struct variants,
+    the order of the fields) IS the variable order — the model orders version keys before string keys (`VarR.lt`), range
+    variables above boolean ones (the `Tree` type), `in` before contains before `extra` (`VarB.lt`), key before value,
+    valid extra names before verbatim ones (`ExtraVal.lt`) -/
+theorem variable_order :
+    Generated.variableVariants = ["Version", "String", "In", "Contains", "Extra"] ∧
+    Generated.variableFields = [("In", "key,value"), ("Contains", "key,value")] ∧
+    Generated.extraValueVariants = ["Extra", "Arbitrary"] ∧
+    VarR.lt (.ver .pyVer) (.str ⟨0⟩) = true ∧ VarR.lt (.str ⟨13⟩) (.ver .implVer) = false ∧
+    VarB.lt (.isIn ⟨13⟩ "z") (.contains ⟨0⟩ "") = true ∧ VarB.lt (.contains ⟨13⟩ "z") (.extra (.extra "")) = true ∧
+    VarB.lt (.extra (.arbitrary "")) (.isIn ⟨0⟩ "") = false ∧
+    VarB.lt (.isIn ⟨1⟩ "z") (.isIn ⟨2⟩ "a") = true ∧ VarB.lt (.isIn ⟨1⟩ "a") (.isIn ⟨1⟩ "b") = true ∧
+    ExtraVal.lt (.extra "z") (.arbitrary "a") = true ∧ ExtraVal.lt (.arbitrary "a") (.extra "z") = false := by decide
+
 /-! ### key names (`MarkerValue::from_str`) and their Display -/
 
 def expectedKey (kind variant : String) : Option MValue :=
